@@ -168,6 +168,39 @@ def pumping_families():
         "open_parens": lambda n: "SELECT " + "(" * n,
         "ifs": lambda n: "SELECT " + "IF(a, " * n + "1" + ", 2)" * n,
     }
+    # every construct with an expression / query hole, nested in itself (a parser that tries one reading of the construct, gives up
+    # and reads it again doubles its work per level)
+    expr_t = {
+        "cast": "CAST({x} AS INT)", "dcolon_paren": "({x})::INT", "case_operand": "CASE {x} WHEN 1 THEN 2 END", "case_then": "CASE WHEN a THEN {x} END",
+        "in_list": "a IN ({x})", "in_left": "({x}) IN (1)", "array": "ARRAY[{x}]", "bracket_list": "[{x}]", "brace": "{{'k': {x}}}", "struct": "STRUCT({x})",
+        "index": "arr[{x}]", "lambda": "f(x -> {x})", "interval": "INTERVAL ({x}) DAY", "between": "({x}) BETWEEN 1 AND 2", "is_null": "({x}) IS NULL",
+        "at_tz": "({x}) AT TIME ZONE 'UTC'", "coalesce": "COALESCE({x}, 1)", "extract": "EXTRACT(DAY FROM {x})", "date_add": "DATE_ADD({x}, INTERVAL 1 DAY)",
+        "trim": "TRIM({x})", "substring": "SUBSTRING({x} FROM 1)", "tuple": "({x}, 1)", "row": "ROW({x})", "map": "MAP({x}, 1)", "json": "JSON_EXTRACT({x}, '$.a')",
+        "arrow": "({x}) -> 'a'", "exists": "EXISTS (SELECT {x})", "in_subquery": "a IN (SELECT {x})", "any": "a = ANY (SELECT {x})", "over": "SUM({x}) OVER ()",
+        "filter": "COUNT(*) FILTER (WHERE {x})", "typed_literal": "DATE({x})", "type_call": "INT({x})", "timestamp_call": "TIMESTAMP({x})", "if": "IF({x}, 1, 2)",
+        "like": "({x}) LIKE 'a'", "concat": "({x}) || 'a'", "try_cast": "TRY_CAST({x} AS TEXT)", "convert": "CONVERT(INT, {x})", "position": "POSITION({x} IN s)",
+    }
+    stmt_t = {
+        "limit": "SELECT a LIMIT ({x})", "offset": "SELECT a LIMIT 1 OFFSET ({x})", "where_in": "SELECT a FROM t WHERE a IN ({x})", "from": "SELECT * FROM ({x}) AS s",
+        "cte": "WITH c AS ({x}) SELECT * FROM c", "projection": "SELECT ({x})", "where_exists": "SELECT a FROM t WHERE EXISTS ({x})", "order": "SELECT a FROM t ORDER BY ({x})",
+        "group": "SELECT a FROM t GROUP BY ({x})", "having": "SELECT a FROM t GROUP BY a HAVING ({x}) > 1", "qualify": "SELECT a FROM t QUALIFY ({x}) > 1",
+        "values": "VALUES (({x}))", "union_paren": "({x}) UNION ALL SELECT 1", "join": "SELECT * FROM t JOIN ({x}) AS s ON TRUE", "lateral": "SELECT * FROM t, LATERAL ({x}) AS s",
+        "insert": "INSERT INTO t ({x})", "create_as": "CREATE TABLE t AS ({x})", "top": "SELECT TOP ({x}) a FROM t", "fetch": "SELECT a FROM t FETCH FIRST ({x}) ROWS ONLY",
+    }
+
+    def nester(tmpl, base):
+        def f(n):
+            s = base
+            for _ in range(n):
+                s = tmpl.replace("{x}", s).replace("{{", "{").replace("}}", "}")
+            return s
+        return f
+
+    for name, tmpl in expr_t.items():
+        g = nester(tmpl, "a")
+        fams.append(("nestx." + name, (lambda n, g=g: "SELECT " + g(n)), [1, 2, 4, 8, 16]))
+    for name, tmpl in stmt_t.items():
+        fams.append(("nests." + name, nester(tmpl, "SELECT 1"), [1, 2, 4, 8, 16]))
     for name, f in rep.items():
         fams.append(("rep." + name, f, [1, 2, 4, 8, 16, 32, 64]))
     for name, f in nest.items():
@@ -199,8 +232,8 @@ def worker(shard, nshards, plan, quick):
                         continue
                     seen.add(m)
                     R.one(m, dialect, levels)
-                for a, b in spans:                      # (b) token prefixes
-                    R.one(sql[:b], dialect, levels[:1], generate=False)
+                for a, b in spans:                      # (b) token prefixes, under every level (lenient levels keep going at end of input)
+                    R.one(sql[:b], dialect, levels, generate=False)
                 if with_insert:
                     for i in range(len(sql)):           # char prefixes
                         R.one(sql[:i], dialect, levels[:1], generate=False)
@@ -255,6 +288,22 @@ def worker(shard, nshards, plan, quick):
                     if idx % nshards != shard:
                         continue
                     R.one("".join(combo), dialect, levels, generate=False)
+        elif kind == "fn_nest":
+            # every function name the parser registers, every type keyword and an unknown name, nested in itself to depth 5 and 10
+            P = D.parser_class
+            types = {k for k, v in D.tokenizer_class.KEYWORDS.items() if v in P.TYPE_TOKENS and " " not in k and k.replace("_", "").isalnum()}
+            names = sorted(set(getattr(P, "FUNCTIONS", {})) | set(getattr(P, "FUNCTION_PARSERS", {})) | types | {"F"})
+            grew = []
+            for name in names:
+                idx += 1
+                if idx % nshards != shard:
+                    continue
+                s5 = R.one("SELECT " + (name + "(") * 5 + "a" + ")" * 5, dialect, unit[2][:1], generate=False)
+                sql10 = "SELECT " + (name + "(") * 10 + "a" + ")" * 10
+                s10 = R.one(sql10, dialect, unit[2][:1], generate=False)
+                if s5 and s10 and s10 > 5 * s5 + 2000:
+                    grew.append((name, s5, s10, sql10, name in types))
+            res.setdefault("fn_grew", []).extend((dialect, len(names)) + g for g in grew)
         elif kind == "pump":
             _, _, levels = unit
             for name, f, sizes in pumping_families():
@@ -262,6 +311,7 @@ def worker(shard, nshards, plan, quick):
                 if idx % nshards != shard:
                     continue
                 prev = None
+                prev_sql = None
                 for n in sizes:
                     sql = f(n)
                     steps = R.one(sql, dialect, levels)
@@ -270,8 +320,9 @@ def worker(shard, nshards, plan, quick):
                     if prev and steps and n >= 8 and steps > 5 * prev + 2000:
                         sig = f"C05|growth|{name}|{dialect or 'base'}"
                         res["viol"].setdefault(sig, {"what": f"[{dialect or 'base'}] family {name}: steps grew from {prev} to {steps} when n doubled to {n}",
-                                                     "case": {"dialect": dialect, "level": levels[0], "sql": sql, "phase": "parse"}, "count": 1})
+                                                     "case": {"dialect": dialect, "level": levels[0], "sql": sql, "phase": "parse", "growth_from": prev_sql}, "count": 1})
                     prev = steps
+                    prev_sql = sql
     res["viol"] = list(res["viol"].items())
     return res
 
@@ -297,6 +348,10 @@ def run(ctx: Ctx) -> None:
         plan.append(("mutants", d, (ident[30:] if d in ("", "duckdb", "bigquery", "tsql") else ident[30:130]) if quick else ident[120:], lv2, False))
         plan.append(("soups", d, 3 if (quick or d) else 4, lv2))
         plan.append(("pump", d, lv2))
+    for d in all_dialects():
+        plan.append(("fn_nest", d, ["IMMEDIATE"]))
+        if d not in dialects:
+            plan.append(("pump", d, ["IMMEDIATE"]))
     # (f) every delete / duplicate / swap mutant and token prefix of every statement the repository's own dialect tests
     # contain, in that statement's dialect (dialect-only syntax: COPY options, WITH (...) properties, hints, procedural bodies)
     by_d = {}
@@ -325,6 +380,27 @@ def run(ctx: Ctx) -> None:
                 viol[sig].update(what=v["what"], case=v["case"])
         else:
             viol[sig] = v
+    # nested function names whose parse work more than quintuples when the depth doubles, grouped by cause: a dialect in which
+    # (nearly) every name does it; type keywords (read as a type first, then again as a function); single names otherwise
+    per_d: dict = {}
+    for d, n_names, name, s5, s10, sql10, is_type in res.get("fn_grew", []):
+        per_d.setdefault(d, {"n": n_names, "hits": []})["hits"].append((name, s5, s10, sql10, is_type))
+    fn_summary = {}
+    for d, info in sorted(per_d.items()):
+        hits = sorted(info["hits"])
+        fn_summary[d or "base"] = len(hits)
+        if len(hits) * 2 > info["n"]:
+            name, s5, s10, sql10, _ = next((h for h in hits if h[0] == "F"), hits[0])
+            viol[f"C05|growth|nest.fn:any|{d or 'base'}"] = {"what": f"[{d or 'base'}] {len(hits)} of {info['n']} function names (e.g. {name}): parse steps grow from {s5} (5 nested calls) to {s10} (10 nested calls)",
+                                                            "case": {"dialect": d, "level": "IMMEDIATE", "sql": sql10, "phase": "parse", "growth_from": "SELECT " + (name + "(") * 5 + "a" + ")" * 5}, "count": len(hits)}
+            continue
+        for name, s5, s10, sql10, is_type in hits:
+            sig = "C05|growth|nest.fn:type_keyword" if is_type else f"C05|growth|nest.fn:{name}"
+            if sig in viol:
+                viol[sig]["count"] += 1
+            else:
+                viol[sig] = {"what": f"[{d or 'base'}] nested calls of {name}: parse steps grow from {s5} (depth 5) to {s10} (depth 10)" + (" - the name is a type keyword; every such name behaves alike" if is_type else ""),
+                             "case": {"dialect": d, "level": "IMMEDIATE", "sql": sql10, "phase": "parse", "growth_from": "SELECT " + (name + "(") * 5 + "a" + ")" * 5}, "count": 1}
     for sig, v in sorted(viol.items()):
         ctx.violation(sig, v["what"], v["case"], v["count"])
     ctx.evidence(
@@ -334,12 +410,13 @@ def run(ctx: Ctx) -> None:
             "distinct_nontrivial": res["nontrivial"],
             "rule": "every 1-token mutant (delete/duplicate/swap; insert of each of 40 menu tokens for the simplest seeds) and every prefix of "
                     "G_core k<=1 statements, of identity.sql and of every statement of tests/dialects/*.py in its own dialect (" + str(len(corpus.dialect_test_sql())) + " seeds); every token soup of length <= 3 over the 40-token menu; every "
-                    "character string of length <= 3 over a 34-character alphabet; 25 pumping families (n up to 64 / nesting 32); x dialects x "
+                    "character string of length <= 3 over a 34-character alphabet; 84 pumping families (repetition to 64, nesting to 32; every construct with an expression / query hole nested in itself to 16) in all dialects; every registered function name and type keyword nested in itself to depth 5 and 10; x dialects x "
                     "error levels; every returned tree generated in its own and the base dialect; every G_clauses statement (base) and every "
                     "dialect-test statement (own dialect) generated into ALL dialects; every function name registered by each dialect's parser called "
                     "with 0..5 positional arguments, DISTINCT, * and named arguments. non-trivial = runs that ended in a "
                     "sqlglot error (the error paths were driven).",
             "step_budget": BUDGET_FORMULA,
+            "nested_function_names_with_superquadratic_growth_per_dialect": fn_summary,
             "max_steps_per_char_in_pumping": round(res["max_steps_per_char"], 1),
             "dialects": len(dialects),
             "exhaustive": True,
@@ -362,6 +439,11 @@ def replay(ctx: Ctx, case: dict) -> bool:
         for sig, v in worker_res["viol"]:
             print(sig, "|", v["what"])
         return bool(worker_res["viol"])
+    if case.get("growth_from"):
+        a = R.one(case["growth_from"], case["dialect"], [case.get("level") or "IMMEDIATE"], generate=False)
+        b = R.one(case["sql"], case["dialect"], [case.get("level") or "IMMEDIATE"], generate=False)
+        print(f"steps {a} -> {b} when the size doubles")
+        return bool(res["viol"]) or bool(a and b and b > 5 * a + 2000)
     lv = [case["level"]] if case.get("level") in LEVELS else ["IMMEDIATE", "IGNORE"]
     R.one(case["sql"], case["dialect"] if case["phase"] != "generate" else case["dialect"], lv)
     if case["phase"] == "generate":
